@@ -479,6 +479,10 @@ def mkNodeActor (rest : List String) (t0 : Nat) : Option (Actor × Addr) :=
     let cfg := match (kvOf rest "tid0").bind String.toNat? with
       | some t => { cfg with firstTid := t }
       | none => cfg
+    -- deny=<ip>: a request filter that vetoes every request from this address
+    let cfg := match (kvOf rest "deny").bind String.toNat? with
+      | some ip => { cfg with denyIp := some (UInt32.ofNat ip) }
+      | none => cfg
     some (Actor.create cfg (UInt64.ofNat (seed ||| 1)) t0, ⟨ip, 6881⟩)
   | none => none
 
